@@ -301,7 +301,7 @@ def run (ctx : Ctx) (op : String) (args : List String) (impl : List String) : Ou
     let matched : Bool := match r with | .ok r => decide (r.start ≥ 0) | _ => false
     let tags := [op, sch] ++ (if matched then ["match"] else ["nomatch"]) ++
       (if isBytes then ["bytes"] else ["runes"]) ++ (if t.any (· > 127) then ["nonascii"] else []) ++
-      (if slab == "nil" then ["noslab"] else if slab.startsWith "d" || slab.startsWith "h" then ["dirty"] else []) ++
+      (if slab == "nil" then ["noslab"] else if slab.startsWith "d" || slab.startsWith "h" || slab.startsWith "g" then ["dirty"] else []) ++
       (if !fwd then ["backward"] else []) ++ (if wp then ["withpos"] else []) ++
       (if op == "v2" ∧ (slabCap.any (fun c => t.size * p.size > c)) then ["v2fallback"] else []) ++
       (if t.size > 65535 then ["huge"] else []) ++
